@@ -216,6 +216,119 @@ class Gen:
         return "\n".join(self.src) + "\n", "\n".join(self.flat) + "\n"
 
 
+def brace(tokens, k):
+    return "{ " * k + " ".join(tokens) + " }" * k if k else " ".join(tokens)
+
+
+def forwarding_program(rng, feats):
+    """arguments handed on from macro to macro: a group that travels through d invocations is written
+    with d+1 levels of braces, each invocation strips exactly one"""
+    d = rng.randint(1, 3)
+    n = rng.randint(1, 2)
+    names = [f"FW{j}" for j in range(d + 1)]
+    src, flat = [], []
+    # innermost: uses its parameters as expression pieces and/or as a group of statements
+    kinds = [rng.choice(["expr", "stmts", "items"]) for _ in range(n)]
+    pars = [f"G{i}" for i in range(n)]
+    src.append(f"@macro {names[0]}, {n}, " + ", ".join(pars))
+    body0 = []
+    for i, k in enumerate(kinds):
+        if k == "expr":
+            body0.append(("@db ( ", i, " ) * 2 & $ff"))
+        elif k == "items":
+            body0.append(("@db $e0, ", i, ", $e1"))
+        else:
+            body0.append(("@db $50\n", i, "\n@db $51"))
+    for a, i, b in body0:
+        src.append(a.replace("\\n", "\n") + pars[i] + b.replace("\\n", "\n"))
+    src.append("@endmacro")
+    # forwarders: hand their own parameters on (possibly permuted / repeated)
+    maps = []
+    for j in range(1, d + 1):
+        pj = [f"H{j}_{i}" for i in range(n)]
+        mp = [rng.randrange(n) for _ in range(n)] if rng.random() < 0.4 else list(range(n))
+        # a parameter may only be handed to a position of the same kind
+        mp = [m if kinds_at(kinds, maps, m) == kinds_at(kinds, maps, i) else i for i, m in enumerate(mp)]
+        maps.append(mp)
+        src.append(f"@macro {names[j]}, {n}, " + ", ".join(pj))
+        src.append(f"@db ${0xa0 + j:x}")
+        src.append(f"{names[j - 1]} " + ", ".join(pj[m] for m in mp))
+        src.append(f"@db ${0xb0 + j:x}")
+        src.append("@endmacro")
+    for _ in range(rng.randint(1, 2)):
+        args = []
+        for i in range(n):
+            k = kinds_at(kinds, maps, i)
+            if k == "expr":
+                toks = rng.choice([["7"], ["1", "+", "2"], ["(", "3", ")", "*", "4"]])
+            elif k == "items":
+                toks = rng.choice([["5"], ["5", ",", "6"], ["1", "+", "1", ",", "9"]])
+            else:
+                toks = rng.choice([["@db", "$10"], ["@db", "$10", "\n", "@db", "$11"], ["@db", "1", ",", "2"]])
+            if len(toks) == 1:
+                lv = rng.randint(0, d + 1)
+            else:
+                lv = d + 1
+            if lv >= 2:
+                feats["nested_braces"] += 1
+            args.append((toks, lv))
+        src.append(f"{names[d]} " + ", ".join(brace([t for t in toks if t != "\n"], lv) for toks, lv in args))
+        feats["forwarded_args"] = feats.get("forwarded_args", 0) + n
+        # reference: walk the chain
+        cur = [a[0] for a in args]
+        pre, post = [], []
+        for j in range(d, 0, -1):
+            pre.append(f"@db ${0xa0 + j:x}")
+            post.insert(0, f"@db ${0xb0 + j:x}")
+            cur = [cur[m] for m in maps[j - 1]]
+        flat += pre
+        for a, i, b in body0:
+            flat.append((a + " ".join(cur[i]) + b).replace("\\n", "\n").replace(" \n ", "\n"))
+        flat += post
+    return "\n".join(src) + "\n", "\n".join(flat) + "\n"
+
+
+def kinds_at(kinds, maps, i):
+    """kind of parameter i of the next forwarder, given the maps of the forwarders below it"""
+    for mp in reversed(maps):
+        i = mp[i]
+    return kinds[i]
+
+
+def definer_program(rng, feats):
+    """a macro with parameters that defines another macro: the outer parameters are substituted in
+    the nested definition's name, parameter count position excluded, and body"""
+    src, flat = [], []
+    dn = rng.choice(["DEFINE", "MK"])
+    two = rng.random() < 0.5
+    src.append(f"@macro {dn}, {3 if two else 2}, NM, VAL" + (", VB" if two else ""))
+    src.append("@macro NM, 1, TAIL")
+    src.append("@db VAL, TAIL" + (", VB" if two else ""))
+    if rng.random() < 0.5:
+        src.append("@db ( VAL ) + ( TAIL ) & $ff")
+        extra = True
+    else:
+        extra = False
+    src.append("@endmacro")
+    src.append("@endmacro")
+    made = []
+    for k in range(rng.randint(1, 3)):
+        nm = f"made{k}"
+        val = rng.choice([["5"], ["1", "+", "2"], ["$a1"]])
+        vb = rng.choice([["$b2"], ["7", "*", "3"]])
+        src.append(f"{dn} {nm}, {brace(val, 1 if len(val) > 1 else rng.randint(0, 1))}" + (f", {brace(vb, 1 if len(vb) > 1 else 0)}" if two else ""))
+        made.append((nm, val, vb))
+        feats["definer_with_params"] = feats.get("definer_with_params", 0) + 1
+    for nm, val, vb in made:
+        for _ in range(rng.randint(1, 2)):
+            t = rng.choice([["$c3"], ["2", "+", "2"]])
+            src.append(f"{nm} {brace(t, 1 if len(t) > 1 else 0)}")
+            flat.append("@db " + " ".join(val) + ", " + " ".join(t) + (", " + " ".join(vb) if two else ""))
+            if extra:
+                flat.append("@db ( " + " ".join(val) + " ) + ( " + " ".join(t) + " ) & $ff")
+    return "\n".join(src) + "\n", "\n".join(flat) + "\n"
+
+
 def walk(body):
     for t in body:
         if isinstance(t, tuple) and t[0] == "DB":
@@ -242,6 +355,9 @@ def run(tier, seed):
         src, flat = g.program()
         feats = g.features
         progs.append((src, flat))
+    for _ in range(400 if tier == "quick" else 6000):
+        progs.append(forwarding_program(rng, feats))
+        progs.append(definer_program(rng, feats))
     corner = [
         ("@macro M, 0\n@db 1\n@endmacro\n@macro M, 0\n@db 2\n@endmacro\n", None),   # defining a macro twice is rejected
         ("@macro Z, 0\n@endmacro\nZ\n@db 9\n", "@db 9\n"),
@@ -286,6 +402,7 @@ def run(tier, seed):
     chk.samples += [{"program": progs[k][0], "reference_expansion": progs[k][1]} for k in (3, len(progs) // 2)]
     chk.oblige("correspondence: implementation = Model (pump with macro recording and replay) on every program", not chk.disagreements,
                str(chk.disagreements[:2])[:800])
+    chk.oblige("every generator feature was exercised", all(v for k, v in feats.items() if not isinstance(v, dict)), str({k: v for k, v in feats.items() if not isinstance(v, dict)}))
     chk.coverage.update({"features": {k: (v if not isinstance(v, dict) else {str(a): b for a, b in v.items()}) for k, v in (feats or {}).items()},
                          "accepted": n_ok, "exhaustive": False})
     chk.assumptions = ["bodies and arguments lose their line breaks when recorded; every statement form is self-delimiting, the reference expansion is rendered one statement per line",
@@ -293,7 +410,7 @@ def run(tier, seed):
     return chk.finish(
         checker_cmd="cd /verif/lean && lake build Az65.Thm.C10 && #print axioms audit",
         trusted_base=C.TRUSTED + ["the reference substitution expander in checks/c10.py"],
-        rule="case = program of macro definitions (0..4 parameters, statement and expression macros, parameters used 0..3 times, nested invocations to depth 3, macros defined by macros, a constant named like a parameter passed as an argument, brace-grouped arguments containing invocations) and invocations; the implementation on the program is compared with the implementation on the reference token-substitution expansion; distinct = distinct programs")
+        rule="case = program of macro definitions (0..4 parameters, statement and expression macros, parameters used 0..3 times, nested invocations to depth 3, macros defined by macros, a constant named like a parameter passed as an argument, brace-grouped arguments containing invocations; groups forwarded through 1..3 invocations with one brace level per hop; macros with parameters defining macros whose name and body use them) and invocations; the implementation on the program is compared with the implementation on the reference token-substitution expansion; distinct = distinct programs")
 
 
 replay = core.replay
